@@ -36,12 +36,14 @@ class FakeWriter:
         self.sim = sim
         self.conn = conn
         self.closed = False
+        self.closed_event = asyncio.Event()
+        self.peer_gone = False          # the peer has closed the link completely: writes fail
 
     def write(self, b):
         sim = self.sim
         k = sim.write_count
         sim.write_count += 1
-        if self.closed or sim.fail_write_at == k:
+        if self.closed or self.peer_gone or sim.fail_write_at == k:
             if bytes(b) in sim.packet_ids:
                 sim.emit(f"writeFail {self.conn} {sim.packet_ids[bytes(b)][0]}")
             else:
@@ -62,6 +64,13 @@ class FakeWriter:
             sim.emit(f"drainFail {self.conn}" if sim.send_stack else f"cfgFail {self.conn}")
             raise ConnectionResetError("drain failed")
         mode = sim.drain_script[k % len(sim.drain_script)] if sim.drain_script else 0
+        if mode == "stuck" and not (self.conn == 1 and sim.send_stack):
+            mode = 0        # only the first link's peer stops reading, and only once messages are being sent
+        if mode == "stuck":
+            # the peer has stopped reading: drain() returns only when the link is shut, and then with an error
+            await self.closed_event.wait()
+            sim.emit(f"drainFail {self.conn}")
+            raise ConnectionResetError("Connection lost")
         for _ in range(mode):
             await sim._real_sleep(0)
 
@@ -69,9 +78,16 @@ class FakeWriter:
         if not self.closed:
             self.sim.emit(f"writerClose {self.conn}")
         self.closed = True
+        self.closed_event.set()
 
     def get_extra_info(self, *_):
         return None
+
+
+class BadStr(Exception):
+    """an exception that cannot be formatted"""
+    def __str__(self):
+        raise RuntimeError("no text for this exception")
 
 
 class Sim:
@@ -81,6 +97,7 @@ class Sim:
     def __init__(self, kind, connect_script=None, cb_mode="ok", status_mode="ok", drain_script=None, **client_kw):
         self.kind = kind
         self.events = []
+        self.event_times = []
         self.close_raised = []
         self.recv_loop_iters = []
         self.stopping = False
@@ -109,6 +126,10 @@ class Sim:
 
     def emit(self, e):
         self.events.append(e)
+        try:
+            self.event_times.append(asyncio.get_event_loop().time())
+        except RuntimeError:
+            self.event_times.append(None)
 
     def current_send(self):
         return self.send_stack[-1] if self.send_stack else "-"
@@ -167,6 +188,13 @@ class Sim:
             sim.emit(f"status {s.name}")
             if sim.status_mode == "raise":
                 raise RuntimeError("status callback failed")
+            if sim.status_mode == "badstr":
+                raise BadStr()
+            if sim.status_mode == "cancelled":
+                # the callback awaits something that has been cancelled: CancelledError escapes from it
+                t = asyncio.ensure_future(sim._real_sleep(10))
+                t.cancel()
+                await t
             if sim.status_mode == "slow" or (sim.status_mode == "slow-connected" and s.name == "CONNECTED"):
                 await sim._real_sleep(0.05)
             if sim.status_mode == "close-on-disconnect" and s.name == "DISCONNECTED":
@@ -199,6 +227,8 @@ class Sim:
             mode = sim.cb_mode[(len(sim.cb_log) - 1) % len(sim.cb_mode)] if isinstance(sim.cb_mode, (list, tuple)) else sim.cb_mode
             if mode == "raise":
                 raise RuntimeError("receive callback failed")
+            if mode == "badstr":
+                raise BadStr()
             if mode == "slow":
                 await sim._real_sleep(0.05)
             if mode == "close":
@@ -284,7 +314,7 @@ class Sim:
                 await orig_close()
             except BaseException as e:
                 if not sim.stopping:
-                    sim.events.append(f"--closeRaised {type(e).__name__}")
+                    sim.emit(f"--closeRaised {type(e).__name__}")
                     sim.close_raised.append(type(e).__name__)
                 raise
             finally:
@@ -320,8 +350,10 @@ class Sim:
         self.emit(f"envFeed {k}")
         r.feed_data(data)
 
-    def eof(self, conn=None):
+    def eof(self, conn=None, gone=False):
         k = (self.conns[-1] if conn is None else self.conns[conn - 1])[0]
+        if gone:
+            (self.conns[-1] if conn is None else self.conns[conn - 1])[2].peer_gone = True
         if self.reader(conn)._eof or self.reader(conn).exception() is not None:
             return
         self.emit(f"envEof {k}")
